@@ -52,10 +52,12 @@ mut("P2", "data.go", """			if c != '\\r' {
 # ---------------------------------------------------------------- lengthlimit_reader.go
 mut("M06", "lengthlimit_reader.go", """		if chr == '\\n' {
 			r.curLineLength = 0
+			lineStart = i + 1
 		}""", """		if chr == '\\n' {
 			r.curLineLength = -1
+			lineStart = i + 1
 		}""", ["C19"], "lineLimitReader", note="counter reset to -1: lines one octet too long accepted")
-mut("M62", "lengthlimit_reader.go", "		if r.curLineLength > r.LineLimit {\n			return 0, ErrTooLongLine", "		if r.curLineLength >= r.LineLimit {\n			return 0, ErrTooLongLine", ["C19"], "lineLimitReader", note="a line exactly at the limit refused")
+mut("M62", "lengthlimit_reader.go", "		if r.curLineLength > r.LineLimit {\n			// Nothing of this line", "		if r.curLineLength >= r.LineLimit {\n			// Nothing of this line", ["C19"], "lineLimitReader", note="a line exactly at the limit refused")
 # ---------------------------------------------------------------- conn.go
 mut("M01", "conn.go", "	r.limited = false\n	io.Copy(ioutil.Discard, r) // Make sure all the data has been consumed\n	c.writeResponse(code, enhancedCode, msg)", "	io.Copy(ioutil.Discard, r) // Make sure all the data has been consumed\n	c.writeResponse(code, enhancedCode, msg)", ["C02"], "handleData/post:resync", note="handleData: limit not lifted before draining")
 mut("M63", "conn.go", "	code, enhancedCode, msg := dataErrorToStatus(c.Session().Data(r))\n	r.limited = false\n	io.Copy(ioutil.Discard, r) // Make sure all the data has been consumed", "	code, enhancedCode, msg := dataErrorToStatus(c.Session().Data(r))\n	if code == 250 {\n		r.limited = false\n		io.Copy(ioutil.Discard, r) // Make sure all the data has been consumed\n	}", ["C02"], "handleData/post:resync", note="handleData: message drained only when the backend accepted it")
@@ -235,6 +237,8 @@ mut("M108", "parse.go", "	} else if localPart == \"\" {\n		return \"\", fmt.Erro
 mut("M109", "server.go", "		if lerr := l.Close(); lerr != nil && err == nil {\n			err = lerr\n		}\n	}\n\n	for conn := range s.conns {", "		if lerr := l.Close(); lerr != nil {\n			err = lerr\n			break\n		}\n	}\n\n	for conn := range s.conns {", ["C20"], "(*Server).Close/", note="Server.Close stops closing listeners at the first failure")
 mut("P16r", "conn.go", "			if value != \"\" {\n				c.writeResponse(501, EnhancedCode{5, 5, 4}, \"SMTPUTF8 takes no value\")\n				return\n			}\n", "", ["C11"], "flagvalues", note="regression of fix d9528c8: SMTPUTF8=x accepted")
 mut("P16r2", "parse.go", "			if m[1] == \"\" {\n				return nil, fmt.Errorf(\"failed to parse arg string: %q\", arg)\n			}\n", "", ["C11"], "parseArgs", note="regression of fix d9528c8: empty parameter value accepted")
+mut("P17r", "conn.go", "	c.lineLimitReader.LineLimit = 0\n	c.lineLimitReader.curLineLength = 0\n\n	chunk := io.LimitReader", "	c.lineLimitReader.LineLimit = 0\n\n	chunk := io.LimitReader", ["C05", "C19"], "no-line-limit-on-chunk-octets", note="regression of fix 4981975: what was counted of the chunk is not forgotten")
+mut("P18r", "lengthlimit_reader.go", "			r.rest = append(append([]byte{}, b[lineStart:n]...), r.rest...)\n			return lineStart, nil", "			_ = lineStart\n			return 0, ErrTooLongLine", ["C05", "C19"], "", note="regression of fix 4981975: the Read that notices the excess fails and drops what it read")
 # ---------------------------------------------------------------- client.go
 mut("M104", "client.go", "		if resp == nil {\n			break\n		}\n		resp64 = make([]byte, encoding.EncodedLen(len(resp)))", "		if len(resp) == 0 {\n			break\n		}\n		resp64 = make([]byte, encoding.EncodedLen(len(resp)))", ["C09"], "success-means-the-server-said-235", note="client stops the AUTH exchange on an empty (non-nil) response and reports success")
 mut("M30", "client.go", "	if d.closed {\n		return fmt.Errorf(\"smtp: data writer closed twice\")\n	}\n	d.closed = true\n", "	if d.closed {\n		return fmt.Errorf(\"smtp: data writer closed twice\")\n	}\n", ["C16"], "always-closed-afterwards", note="dataCloser never marked closed (also regression of fix 755bba6)")
@@ -267,9 +271,9 @@ mut("R05", "conn.go", "	args := strings.Fields(arg)\n	if len(args) == 0 {\n		c.w
 mut("R06", "conn.go", "	if !c.fromReceived {\n		c.writeResponse(502, EnhancedCode{5, 5, 1}, \"Missing MAIL FROM command.\")\n		return\n	}\n	if c.bdatPipe != nil {\n		c.writeResponse(502, EnhancedCode{5, 5, 1}, \"RCPT not allowed during message transfer\")\n		return\n	}", "	if c.bdatPipe != nil {\n		c.writeResponse(502, EnhancedCode{5, 5, 1}, \"RCPT not allowed during message transfer\")\n		return\n	}\n	if !c.fromReceived {\n		c.writeResponse(502, EnhancedCode{5, 5, 1}, \"Missing MAIL FROM command.\")\n		return\n	}", ["C03", "C11"], kind="refactor", note="the two independent guards of handleRcpt swapped")
 mut("R07", "server.go", "	var err error\n	s.locker.Lock()\n	for _, l := range s.listeners {\n		if lerr := l.Close(); lerr != nil && err == nil {\n			err = lerr\n		}\n	}\n\n	for conn := range s.conns {", "	var err error\n	s.locker.Lock()\n	ls := s.listeners\n	for _, l := range ls {\n		if lerr := l.Close(); lerr != nil && err == nil {\n			err = lerr\n		}\n	}\n\n	for conn := range s.conns {", ["C20"], kind="refactor", note="listeners hoisted into a local under the lock")
 mut("R08", "client.go", "	if d.closed {\n		return fmt.Errorf(\"smtp: data writer closed twice\")\n	}", "	if wasClosed := d.closed; wasClosed {\n		return fmt.Errorf(\"smtp: data writer closed twice\")\n	}", ["C16", "C18"], kind="refactor", note="closed flag read into a local first")
-mut("R03", "lengthlimit_reader.go", """	for _, chr := range b[:n] {
+mut("R03", "lengthlimit_reader.go", """	for i, chr := range b[:n] {
 		if chr == '\\n' {""", """	buf := b[:n]
-	for _, chr := range buf {
+	for i, chr := range buf {
 		if chr == '\\n' {""", ["C19"], kind="refactor", note="slice hoisted into a local")
 
 
